@@ -2075,7 +2075,16 @@ func (k *Kernel) handleReplayedHeader(
 	// otherwise the replay cannot proceed.
 	var blockPow uint64
 	var bs bitset.BitSet
-	tempProofs[string(header.Hash)].SignatureBitSet(&bs)
+	headerProof, ok := tempProofs[string(header.Hash)]
+	if !ok {
+		return tmelink.ReplayedHeaderValidationError{
+			Err: fmt.Errorf(
+				"replayed proof contains no precommits for the replayed header's hash %x",
+				header.Hash,
+			),
+		}
+	}
+	headerProof.SignatureBitSet(&bs)
 	for i, ok := bs.NextSet(0); ok && int(i) < len(s.Voting.ValidatorSet.Validators); i, ok = bs.NextSet(i + 1) {
 		blockPow += s.Voting.ValidatorSet.Validators[int(i)].Power
 	}
